@@ -314,8 +314,31 @@ func c12Strip(c *Ctx, strip *ssa.Function, chain, key, val *types.Var) {
 			rec = in.(*ssa.Call)
 		}
 	})
+	// whatever its shape: a chain returned with a freshly built head must keep the input's head link
+	// (stripping a key from below the head never removes or replaces the head)
+	for i, ret := range returnsOf(strip) {
+		v1 := results(ret)[1]
+		mi, isMI := v1.(*ssa.MakeInterface)
+		if !isMI {
+			continue
+		}
+		al, isAl := mi.X.(*ssa.Alloc)
+		if !isAl {
+			continue
+		}
+		got := map[*types.Var]ssa.Value{}
+		for _, f := range []*types.Var{key, val} {
+			for _, fs := range c.StoresTo(f) {
+				if fs.Base == ssa.Value(al) {
+					got[f] = fs.St.Val
+				}
+			}
+		}
+		r.Check("R12.2", name, fmt.Sprintf("return #%d: a rebuilt chain still starts with the input chain's own head (its key and value)", i+1), ret.Pos(),
+			isTopField(got[key], key) && isTopField(got[val], val), "links above the removed key are dropped: other keys of the owner disappear")
+	}
 	if rec == nil {
-		r.Note("shape-unrecognised R12.2: the strip function is not recursive; its result pairs are not evaluated (R12.1 immutability and the SetProperty wiring still are)")
+		r.Note("shape-unrecognised R12.2: the strip function is not recursive; its result pairs are not evaluated further (R12.1 immutability, head preservation and the SetProperty wiring still are)")
 		return
 	}
 	recOK := rec != nil && isTopField(rec.Call.Args[0], chain) && rec.Call.Args[1] == ssa.Value(keyP)
